@@ -28,6 +28,9 @@ def h_factory(ctx, kind, cfg, twin=False):
     ctx.holds("factory result == original", u == b.pdu)
     ctx.holds("factory result exposes the original parameters", b.check(u))
     ctx.holds("factory result re-packs identically", u.pack() == raw)
+    earlier_result_survives(ctx, lambda: sym_and(b.check(u), u == b.pdu, u.pack() == raw),
+                            [(lambda o=o: PduFactory.from_raw(o)) for o in other_packets(kind, cfg, VAR[kind]) +
+                             other_packets("prompt" if kind != "prompt" else "eof", cfg, {})])
     hl = hdr_len(b.v)
     ctx.holds("pdu_type inspector", PduFactory.pdu_type(raw) == (1 if kind == "filedata" else 0))
     ctx.holds("is_file_directive inspector", PduFactory.is_file_directive(raw) == (kind != "filedata"))
